@@ -31,7 +31,9 @@ SPECIAL_STRS = ["Washington, DC", "a,b", ", ", ",", "x, y)", "(1, 2)", "1, 2", "
                 "١", "1 ", "\t1", "a\rb", "\r", "x\x0cy", "\x0b", "\x85", "\u2028", "\x1c1", "1\r", "\r\r", "\ufb01", "x\u00b2", "\u2126", "\uff11\uff12", "\uff02", "\uff07x", "\u212b", "e\u0301", "\u00e9",
                 "\u33a1", "\u2460", "\uff76", "\u1e9b\u0323"]
 SPECIAL_INTS = ["0", "1", "7", "18", "007", "0000", "9007199254740992", "9007199254740993", "9007199254740991", "18446744073709551616",
-                "123456789012345678901234567890", "1" + "0" * 39, "9" * 40, "2147483648", "4294967296", "100000000000000000000001"]
+                "123456789012345678901234567890", "1" + "0" * 39, "9" * 40, "2147483648", "4294967296", "100000000000000000000001",
+                # hundreds to thousands of digits, up to CPython's int <-> text limit of 4300
+                "1" + "0" * 999, "1" + "0" * 1000, "9" * 1500, "123456789" * 278, "7" * 4300, "5" * 333]
 SPECIAL_FLOATS = ["0.0", "1.5", "0.1", "3.14", "18.0", "1.0", "0.30000000000000004", "9007199254740993.0", "2.50", "007.500",
                   "0.000000000000000000001", "12345678901234567890.12345678901234567890", "99999999999999999999.9", "0.5",
                   "1.7976931348623157", "4.9406564584124654", "100.0", "0.10000000000000000555"]
@@ -92,11 +94,11 @@ def _neighbours(v):
                 pass
         res += [None, 0]
     elif isinstance(v, int):
-        res += [v + 1, v - 1, -v, str(v), v + 0.5]
+        res += [v + 1, v - 1, -v, str(v)]
         try:
-            res += [float(v), math.nextafter(float(v), math.inf)]
+            res += [v + 0.5, float(v), math.nextafter(float(v), math.inf)]
         except OverflowError:
-            pass
+            pass  # beyond the range of a double: no float neighbours
     elif isinstance(v, float):
         res += [math.nextafter(v, math.inf), math.nextafter(v, -math.inf), v + 1.0, repr(v), -v]
         if v == int(v):
@@ -195,8 +197,11 @@ def judge(case):
         _run_prog(M.program("e", M.if_([(M.cmp_(x, "<=", lit), R_EQ)], R_NE)), str_envs, viol, "right operand of <=")
         _run_prog(M.program("e", M.if_([(M.cmp_(x, "in", lit), R_EQ)], R_NE)), str_envs, viol, "right operand of in (substring)")
     # tuple member: plain, one-element, nested
-    _run_prog(M.program("e", M.if_([(M.cmp_(x, "in", M.tup([other, lit])), R_EQ)], R_NE)), envs + [{"x": ov}], viol, "tuple member")
-    _run_prog(M.program("e", M.if_([(M.cmp_(x, "not in", M.tup([lit])), R_NE)], R_EQ)), envs, viol, "one-element tuple member")
+    # ... also asked about values that cannot be hashed (a list, a dict): membership in a tuple is decided by ==, so they are
+    # simply not members
+    unhashable = [{"x": [v]}, {"x": [v, ov]}, {"x": {"k": v}}, {"x": []}]
+    _run_prog(M.program("e", M.if_([(M.cmp_(x, "in", M.tup([other, lit])), R_EQ)], R_NE)), envs + [{"x": ov}] + unhashable, viol, "tuple member")
+    _run_prog(M.program("e", M.if_([(M.cmp_(x, "not in", M.tup([lit])), R_NE)], R_EQ)), envs + unhashable, viol, "one-element tuple member")
     tenvs = [{"x": (n, ov)} for n in nb] + [{"x": [v, ov]}, {"x": (v,)}]
     _run_prog(M.program("e", M.if_([(M.cmp_(x, "==", M.tup([lit, other])), R_EQ)], R_NE)), tenvs, viol, "member of a compared tuple")
     # tuples of 3 and 4 members: the ORDER of the members matters for == and for nested membership
@@ -208,7 +213,7 @@ def judge(case):
               [{"x": (v, 1, ov, "z")}, {"x": (v, "z", ov, 1)}, {"x": (ov, v, 7)}, {"x": (ov, 7, v)}, {"x": ("z", ov, 1, v)}], viol,
               "member of nested 3- and 4-tuples")
     nenvs = [{"x": (n,)} for n in nb] + [{"x": v}]
-    _run_prog(M.program("e", M.if_([(M.cmp_(x, "in", M.tup([M.tup([lit]), M.tup([other, lit])])), R_EQ)], R_NE)), nenvs + [{"x": (ov, v)}], viol,
+    _run_prog(M.program("e", M.if_([(M.cmp_(x, "in", M.tup([M.tup([lit]), M.tup([other, lit])])), R_EQ)], R_NE)), nenvs + [{"x": (ov, v)}] + unhashable, viol,
               "member of a nested tuple")
     # (iii) salt
     if lit["t"] == "str":
